@@ -66,7 +66,7 @@ def rule_partition(F, R):
         "a/(?i)*b": [("lit", "a"), ("sep", "/"), ("zom", "(?i)*"), ("lit-ci", "b")],
     }
     n = 0
-    for expr, pieces in scenarios.items():
+    for (expr, pieces), owned in itertools.product(scenarios.items(), (False, True)):
         toks0 = build(expr, pieces)
         for npop in range(0, len(toks0) + 1):
             stubs = {"token::Token::invariant_text_prefix": lambda I, a, fn, e, npop=npop: Tup([npop, "PREFIX%d" % npop])}
@@ -74,11 +74,12 @@ def rule_partition(F, R):
             toks = build(expr, pieces)
             tree = toks[0] if len(toks) == 1 else Adt(T.TOKEN, "Token", {"topology": Adt(T.TOPO, "Branch", {"0": Adt(T.BRANCH, "Concatenation", {
                 "0": Adt("token::Concatenation", "Concatenation", {"0": RList(toks)})})}), "annotation": Tup([0, len(expr.encode())])})
-            tz = Adt("token::Tokenized", "Tokenized", {"expression": expr, "token": tree})
+            # the expression is a Cow: a glob built from text borrows it, an owned glob (into_owned, FromStr) owns it
+            tz = Adt("token::Tokenized", "Tokenized", {"expression": Adt("std::borrow::Cow", "Owned", {"0": expr}) if owned else expr, "token": tree})
             cases = I.explore(lambda: I.call_item(it, [tz], inst=inst))
             res = tabulate.single(cases)
             n += 1
-            name = "%s/pop=%d" % (expr.replace("愛", "U+611B"), npop)
+            name = "%s/pop=%d" % (expr.replace("愛", "U+611B"), npop) + ("/owned" if owned else "")
             if isinstance(res, (Top, Panicked)) or not isinstance(strip(res), Tup):
                 R.fail("C08.bytes", name, "partition panics / is unanalysable: %r" % ([c.result for c in cases][:1],), it.where())
                 continue
@@ -100,6 +101,8 @@ def rule_partition(F, R):
                 R.fail("C08.bytes", name, "a postfix was expected, got %r" % (rest,), it.where())
                 continue
             new_expr = strip(tzn.fields["expression"])
+            if isinstance(new_expr, Adt) and new_expr.path == "std::borrow::Cow":
+                new_expr = strip(new_expr.fields.get("0"))
             if isinstance(new_expr, StrB):
                 new_expr = new_expr.text()
             new_tok = strip(tzn.fields["token"])
@@ -140,7 +143,7 @@ def rule_partition(F, R):
                        "the remaining spans must be the same value (popped span lengths + the unrooted separator)", it.where())
             else:
                 R.ok("C08.bytes", name, "postfix `%s`: every remaining span delimits the same text; first token unrooted" % new_expr, it.where(), sample=(n % 5 == 0))
-    R.floor("C08.bytes", "partition cells", n, 15)
+    R.floor("C08.bytes", "partition cells", n, 40)
     # Wildcard::unroot table
     un = F.find("token::Wildcard::unroot")
     I = Interp(F)
